@@ -92,7 +92,8 @@ def block_after(s, start):
 
 def impl_blocks(s, ty):
     out = []
-    for m in re.finditer(r"\bimpl\s+" + re.escape(ty) + r"\s*\{", s):
+    base = ty.split("<")[0]
+    for m in re.finditer(r"\bimpl(?:<[^{;]*?>)?\s+" + re.escape(base) + r"(?:<[^{;]*?>)?\s*\{", s):
         b = block_after(s, m.start())
         if b:
             out.append(b)
@@ -179,6 +180,82 @@ def lean_bytes(b):
 def lean_str(t):
     return '"' + t.replace("\\", "\\\\").replace('"', '\\"') + '"'
 
+
+def display_templates(src, ty):
+    """`impl Display for <ty>`: one template per `Self::Variant(bindings) => write!(f, "fmt", args…)` arm, in
+    source order — a list of literal pieces and holes, a hole being the INDEX of the variant's binding that is
+    printed there (so the order of the arguments is part of what is extracted)."""
+    m = re.search(r"\bimpl\s+(?:\w+::)*Display\s+for\s+" + re.escape(ty) + r"\s*\{", src)
+    if not m:
+        return None
+    body = block_after(src, m.start())
+    if body is None:
+        return None
+    arm = re.compile(r"Self::(\w+)\s*(?:\(([^)]*)\))?\s*=>\s*(?:\{\s*)?write!\(\s*f\s*,\s*" + STR + r"\s*((?:,\s*\w+\s*)*),?\s*\)")
+    out = []
+    for a in arm.finditer(body):
+        variant, binds, fmt, args = a.group(1), a.group(2), a.group(3), a.group(4)
+        binds = [b.strip() for b in (binds or "").split(",") if b.strip()]
+        args = [x.strip() for x in args.split(",") if x.strip()]
+        try:
+            text = unescape(fmt).decode("utf-8")
+        except (ValueError, UnicodeDecodeError):
+            return None
+        pieces, cur, i, k = [], "", 0, 0
+        while i < len(text):
+            if text.startswith("{{", i) or text.startswith("}}", i):
+                cur += text[i]
+                i += 2
+            elif text.startswith("{}", i):
+                if k >= len(args) or args[k] not in binds:
+                    return None
+                if cur:
+                    pieces.append(cur.encode("utf-8"))
+                    cur = ""
+                pieces.append(binds.index(args[k]))
+                k += 1
+                i += 2
+            elif text[i] in "{}":
+                return None            # a format spec this translator does not know
+            else:
+                cur += text[i]
+                i += 1
+        if cur:
+            pieces.append(cur.encode("utf-8"))
+        if k != len(args):
+            return None
+        out.append((variant, pieces))
+    # every arm of the match must have been understood
+    n_arms = len(re.findall(r"Self::\w+\s*(?:\([^)]*\))?\s*=>", body))
+    return out if out and len(out) == n_arms else None
+
+
+def ctor_literals(srcs, ctor):
+    """the distinct string literals passed to `RequestError::<ctor>("…")` outside the unit tests, in source order"""
+    out = []
+    for s in srcs:
+        for m in re.finditer(r"\b" + re.escape(ctor) + r"\(\s*" + STR + r"\s*,?\s*\)", s):
+            try:
+                b = unescape(m.group(1))
+            except ValueError:
+                return None
+            if b not in out:
+                out.append(b)
+    return out or None
+
+
+def format_template(src, anchor):
+    """the `format!("…{}…", x)` whose text contains `anchor`: (prefix, suffix) around its single hole"""
+    for m in re.finditer(r"format!\(\s*" + STR, src):
+        try:
+            t = unescape(m.group(1)).decode("utf-8")
+        except (ValueError, UnicodeDecodeError):
+            continue
+        if anchor in t and t.count("{}") == 1:
+            pre, post = t.split("{}")
+            fix = lambda x: x.replace("{{", "{").replace("}}", "}")
+            return fix(pre).encode(), fix(post).encode()
+    return None
 
 
 # ------------------------------------------------------------------------------------------------------------
@@ -355,6 +432,85 @@ def translate_writer(resp):
         return None, "recursion"
 
 
+# ------------------------------------------------------------------------------------------------------------
+# Translator for small boolean predicates (`fn f(&self) -> bool { <expr> }`): `||`, `&&`, `!`, `==`, `!=`,
+# parentheses, integer literals, and the atoms listed per predicate. Anything else → `none`.
+
+def tr_pred(expr, atoms):
+    toks = re.findall(r"\|\||&&|==|!=|!|\(|\)|[0-9]+|[A-Za-z_][\w:.]*(?:\(\))?(?:\.[A-Za-z_]\w*(?:\(\))?)*", expr)
+    if "".join(toks) != re.sub(r"\s+", "", expr):
+        raise Unparsed("predicate tokens " + expr)
+    pos = [0]
+
+    def peek():
+        return toks[pos[0]] if pos[0] < len(toks) else None
+
+    def eat(t=None):
+        x = peek()
+        if x is None or (t is not None and x != t):
+            raise Unparsed("predicate syntax")
+        pos[0] += 1
+        return x
+
+    def atom():
+        x = eat()
+        if x == "(":
+            v = disj()
+            eat(")")
+            return v
+        if x.isdigit():
+            return x
+        if x in atoms:
+            return atoms[x]
+        raise Unparsed("predicate atom " + x)
+
+    def unary():
+        if peek() == "!":
+            eat()
+            return f"(!{unary()})"
+        return atom()
+
+    def cmp_():
+        a = unary()
+        if peek() in ("==", "!="):
+            op = eat()
+            b = unary()
+            return f"({a} {op} {b})"
+        return a
+
+    def conj():
+        a = cmp_()
+        while peek() == "&&":
+            eat()
+            a = f"({a} && {cmp_()})"
+        return a
+
+    def disj():
+        a = conj()
+        while peek() == "||":
+            eat()
+            a = f"({a} || {conj()})"
+        return a
+
+    v = disj()
+    if peek() is not None:
+        raise Unparsed("predicate trailing")
+    return v
+
+
+def translate_pred(src, ty, fn, atoms):
+    body = fn_body(src, ty, fn)
+    if body is None:
+        return None
+    inner = body.strip()[1:-1].strip()
+    if ";" in inner:
+        return None
+    try:
+        return tr_pred(inner, atoms)
+    except Unparsed:
+        return None
+
+
 def main():
     conn, srv, common, headers, resp, req = (read(x) for x in
                                              ("connection.rs", "server.rs", "common/mod.rs", "common/headers.rs", "response.rs", "request.rs"))
@@ -404,12 +560,43 @@ def main():
     lits = [unescape(m.group(1)) for m in re.finditer(r"write_all\(\s*b" + STR + r"\s*\)", resp)]
     items.append(("responseLiterals", "List (List UInt8)", None if not lits else "[" + ", ".join(lean_bytes(b) for b in lits) + "]"))
 
+
+    def templ(name, v):
+        def piece(x):
+            return f".inr {x}" if isinstance(x, int) else f".inl {lean_bytes(x)}"
+        items.append((name, "List (String × List (List UInt8 ⊕ Nat))",
+                      None if v is None else "[" + ",\n    ".join(f"({lean_str(k)}, [{', '.join(piece(x) for x in ps)}])" for k, ps in v) + "]"))
+
+    def blist(name, v):
+        items.append((name, "List (List UInt8)", None if v is None else "[" + ", ".join(lean_bytes(b) for b in v) + "]"))
+
+    templ("displayRequestError", display_templates(common, "RequestError"))
+    templ("displayHeaderError", display_templates(common, "HttpHeaderError"))
+    nontest = [common, req, headers, conn, srv]
+    blist("invalidMethodTexts", ctor_literals(nontest, "InvalidHttpMethod"))
+    blist("invalidVersionTexts", ctor_literals(nontest, "InvalidHttpVersion"))
+    blist("invalidUriTexts", ctor_literals(nontest, "InvalidUri"))
+    ft = format_template(srv, "All previous unanswered requests")
+    byts("BAD_REQUEST_PREFIX", ft[0] if ft else None)
+    byts("BAD_REQUEST_SUFFIX", ft[1] if ft else None)
+
+    # small predicates of the state machines, as Lean functions over the model's state
+    preds = []
+    preds.append(("isDone", "Client → Bool", "c", translate_pred(srv, "ClientConnection", "is_done", {
+        "self.state": "c.state", "ClientConnectionState::Closed": "CState.closed",
+        "ClientConnectionState::AwaitingIncoming": "CState.awaitingIn",
+        "ClientConnectionState::AwaitingOutgoing": "CState.awaitingOut",
+        "self.connection.pending_write()": "pendingWrite c.conn", "self.in_flight_response_count": "c.inflight"})))
+    preds.append(("pendingWrite", "Conn0 → Bool", "c", translate_pred(conn, "HttpConnection<T>", "pending_write", {
+        "self.response_buffer.is_some()": "c.respBuf.isSome", "self.response_buffer.is_none()": "c.respBuf.isNone",
+        "self.response_queue.is_empty()": "c.respQ.isEmpty"})))
+
     writer, why = translate_writer(resp)
     lines = ["/-",
              "  GENERATED by /verif/tools/extract.py from /repo/src on every run of `check` — do not edit.",
              "  `none` = the translator did not find the item in the source (see tools/extract.py).",
              "-/",
-             "import MicroHttp.Response", "import MicroHttp.Headers",
+             "import MicroHttp.Response", "import MicroHttp.Headers", "import MicroHttp.Server",
              "namespace MicroHttp.Extracted", "open MicroHttp", "",
              "/-- `for (idx, x) in l.iter().enumerate()` -/",
              "def forEnumFrom {α β : Type} (f : Nat → α → List β) : Nat → List α → List β",
@@ -430,6 +617,10 @@ def main():
         lines.append("def responseWriter : Option (Response → List (List UInt8)) :=\n  some fun r => " + writer)
     else:
         lines.append("def responseWriter : Option (Response → List (List UInt8)) := none")
+    for name, ty, var, body in preds:
+        summary[name] = "ok" if body else "unparsed"
+        lines.append("")
+        lines.append(f"def {name} : Option ({ty}) := " + (f"some fun {var} => {body}" if body else "none"))
     lines += ["", "end MicroHttp.Extracted", ""]
     text = "\n".join(lines)
     old = open(OUT).read() if os.path.exists(OUT) else None
